@@ -179,3 +179,20 @@ def tamper_family(rng, I, form, full=True):
             out.append(("extend-shortbuf", open_line(form, I, ct=ct + rbytes(rng, e), mbuf=small), small))
             out.append(("extend-shortbuf", open_line(form, I, ct=ct + b"\x00" * e, mbuf=small), small))
     return out
+
+
+def oversized_authentic(I, extras=(1, 7, 64, 200)):
+    """an AUTHENTIC box opened into a receive buffer longer than the message (a fixed receive buffer): Ok, the message in the prefix,
+    the rest of the buffer as it was.  libsodium has no buffer length to compare with; judged by the expected answer and the model."""
+    out = []
+    for form in CLASSIC_BUF_FORMS:
+        f = form.split(" ")[0]
+        if "inplace" in f or "seal" in f:
+            continue
+        for extra in extras:
+            big = buf(len(I.msg) + extra)
+            line = open_line(form, I, mbuf=big)
+            exp = "ok " + hx(I.msg + buf(extra))
+            out.append(Case(line, cls="open-oversized-buffer/" + f, expect=(lambda a, e=exp: a == e),
+                            meta={"no_sodium": True, "no_spec": True, "why": "authentic box opened into a buffer %d bytes longer than the message" % extra}))
+    return out
